@@ -13,6 +13,8 @@ structure Param (σ : Type) where
   loc : B              -- `in`
   required : Bool
   schema : σ
+  style : B := []      -- "" = absent
+  explode : Bool := false
 
 /-- one response: code, description, schema of the single media type (`none`: no content) -/
 structure Resp (σ : Type) where
@@ -51,6 +53,8 @@ structure ParamSpec where
   format : B
   enum : List B
   dflt : Option DV := none
+  style : B := []
+  explode : Option Bool := none
 
 inductive TagSel | query | path | header | cookie
   deriving DecidableEq, Repr
@@ -81,7 +85,7 @@ def derefPtr (env : Env) : Ty → Ty
     | _ => .named id
   | t => t
 
-/-- `inferFormat` (no `format` tag in the corpus; url.URL / net.IP do not occur) -/
+/-- `inferFormat` (no `format` tag in the corpus) -/
 def inferFormat (env : Env) (m : FieldMeta) (t : Ty) : B :=
   let v := m.validate
   if contains v (s "email") then s "email"
@@ -90,6 +94,8 @@ def inferFormat (env : Env) (m : FieldMeta) (t : Ty) : B :=
   else if contains v (s "ipv4") then s "ipv4"
   else if contains v (s "ipv6") then s "ipv6"
   else if derefPtr env t = .time then s "date-time"
+  else if m.typeIs = s "url" then s "uri"
+  else if m.typeIs = s "ip" then s "ip"
   else []
 
 /-- `t.Kind()` of a primitive type after one pointer level (anything else: not a primitive) -/
@@ -129,7 +135,9 @@ def paramOfField (env : Env) (sel : TagSel) (mt : FieldMeta × Ty) : Option Para
         | some rest => fields rest
         | none => []
       some { name := name, loc := sel.loc, ty := t, required := isParamRequired env m t sel,
-             format := inferFormat env m t, enum := enum, dflt := parseValue env m.dflt t }
+             format := inferFormat env m t, enum := enum, dflt := parseValue env m.dflt t,
+             style := m.style,
+             explode := if m.explode = s "true" then some true else if m.explode = s "false" then some false else none }
 
 def extractParamsFromTag (env : Env) (flat : List (FieldMeta × Ty)) (sel : TagSel) : List ParamSpec :=
   flat.filterMap (paramOfField env sel)
@@ -296,7 +304,7 @@ structure OpIn where
   security : List (B × List B) := []       -- doc.Security (scheme, scopes)
   deriving Repr, Inhabited
 
-inductive Err | dupOp | status | noPaths | validation
+inductive Err | dupOp | status | noPaths | validation | style
   deriving DecidableEq, Repr, Inhabited
 
 /-- `convertOperation`: a RouteDoc is built only when there is something to document -/
@@ -314,7 +322,8 @@ def paramOfSpec (env : Env) (ps : ParamSpec) (st : Schemas) : Param IR × Schema
   let s0 := setDflt ps.dflt r.1
   let s1 := if ps.enum.isEmpty then s0 else s0.modHead fun h => { h with enum := ps.enum }
   let s2 := if ps.format ≠ [] then s1.modHead fun h => { h with format := ps.format } else s1
-  ({ name := ps.name, loc := ps.loc, required := ps.required, schema := s2 }, r.2)
+  ({ name := ps.name, loc := ps.loc, required := ps.required, schema := s2, style := ps.style,
+     explode := ps.explode.getD false }, r.2)
 
 /-- the loop over `md.Parameters` with the (in, name) de-duplication of K07g -/
 def mdParams (env : Env) : List ParamSpec → List (B × B) → List B → Schemas →
@@ -382,6 +391,15 @@ def genResps (env : Env) : List (Nat × B × Option Ty) → Schemas → Except E
         | .error e => .error e
         | .ok rr => .ok ({ code := code, description := description, schema := none } :: rr.1, rr.2)
 
+/-- `validateParamStyle` (K07l): the styles the specification admits per location; "" = no style tag -/
+def styleOK (loc style : B) : Bool :=
+  style = [] ||
+  (if loc = s "path" then [s "matrix", s "label", s "simple"].contains style
+   else if loc = s "query" then [s "form", s "spaceDelimited", s "pipeDelimited", s "deepObject"].contains style
+   else if loc = s "header" then style = s "simple"
+   else if loc = s "cookie" then style = s "form"
+   else false)
+
 /-- the parameter block of buildOperation: parameters from the request metadata, then the route's
     path parameters the metadata did not declare -/
 def opParams (env : Env) (md : Option Meta) (pathParams : List (Param IR)) (st : Schemas) : List (Param IR) × Schemas :=
@@ -419,6 +437,8 @@ def buildOperation (env : Env) (op : OpIn) (st : Schemas) (seenOps : List B) :
     else
       let md := op.req.bind (introspect env)
       let pr := opParams env md (extractPathParams op.path) st
+      if !(pr.1.all fun p => styleOK p.loc p.style) then .error .style
+      else
       let br := opBody env md pr.2
       match genResps env (sortStatuses op.resps) br.2 with
       | .error e => .error e
@@ -620,7 +640,7 @@ def projSchema (v : Version) : IR → Schema :=
   | .v31 => Tree.project head31
 
 def Param.map {σ τ} (f : σ → τ) (p : Param σ) : Param τ :=
-  { name := p.name, loc := p.loc, required := p.required, schema := f p.schema }
+  { name := p.name, loc := p.loc, required := p.required, schema := f p.schema, style := p.style, explode := p.explode }
 def Resp.map {σ τ} (f : σ → τ) (r : Resp σ) : Resp τ :=
   { code := r.code, description := r.description, schema := r.schema.map f }
 def Operation.map {σ τ} (f : σ → τ) (o : Operation σ) : Operation τ :=
